@@ -1,5 +1,7 @@
 import SpoxModel.Lemmas.Tensor
 import SpoxModel.Lemmas.Attr
+import SpoxModel.Lemmas.Float
+import SpoxModel.Model.Embed
 /-!
 # C10 — constants and attributes are embedded exactly and captured at the call
 
@@ -153,7 +155,7 @@ example : (fromArray true ⟨.str, [1], [], [['ü']]⟩).map (fun t => t.stringD
 end examples
 
 /-! ## Part 2 — attribute kinds and validation -/
-open Attr Generated.AttrKinds
+open Attr Generated.AttrKinds FloatBits
 
 /-- The declared `AttributeProto` type of every class is the one ONNX means (generated table). -/
 theorem generated_kinds_exact (c : Cls) : kindOf c = specKind c := by cases c <;> rfl
@@ -256,7 +258,7 @@ theorem validate_spec (q : Bool) (c : Cls) (name : String) (v : PyVal) (hd : inD
     | atom a =>
       cases a <;> simp [construct, validated, scalarProto, rightKind, validateCatchAll, kindOf, FLOAT, INT,
         STRING, TENSOR, TYPE_PROTO, Except.isOk, Except.toBool]
-      case int n f => cases f <;> simp
+      case int n => cases intF32 n <;> simp
       case ndarray a => cases fromArray q a <;> simp
   case int64 =>
     cases v with
@@ -264,7 +266,7 @@ theorem validate_spec (q : Bool) (c : Cls) (name : String) (v : PyVal) (hd : inD
     | atom a =>
       cases a <;> simp [construct, validated, scalarProto, rightKind, validateCatchAll, kindOf, FLOAT, INT,
         STRING, TENSOR, TYPE_PROTO, Except.isOk, Except.toBool]
-      case int n f => cases inInt64 n <;> simp
+      case int n => cases inInt64 n <;> simp
       case ndarray a => cases fromArray q a <;> simp
   case string =>
     cases v with
@@ -272,7 +274,7 @@ theorem validate_spec (q : Bool) (c : Cls) (name : String) (v : PyVal) (hd : inD
     | atom a =>
       cases a <;> simp [construct, validated, scalarProto, rightKind, validateCatchAll, kindOf, FLOAT, INT,
         STRING, TENSOR, TYPE_PROTO, Except.isOk, Except.toBool]
-      case int n f => cases inInt64 n <;> simp
+      case int n => cases inInt64 n <;> simp
       case ndarray a => cases fromArray q a <;> simp
   case type_ =>
     cases v with
@@ -280,7 +282,7 @@ theorem validate_spec (q : Bool) (c : Cls) (name : String) (v : PyVal) (hd : inD
     | atom a =>
       cases a <;> simp [construct, validated, scalarProto, rightKind, validateCatchAll, kindOf, FLOAT, INT,
         STRING, TENSOR, TYPE_PROTO, Except.isOk, Except.toBool]
-      case int n f => cases inInt64 n <;> simp
+      case int n => cases inInt64 n <;> simp
       case ndarray a => cases fromArray q a <;> simp
   case tensor =>
     cases v with
@@ -365,9 +367,9 @@ theorem wrong_kind_typeerror (q : Bool) (c : Cls) (name : String) (v : PyVal)
       exact hv _ _ hs
 
 /-- Exact values: what each accepted value puts into the `AttributeProto`. -/
-theorem attr_int_exact (q : Bool) (name : String) (n : Int) (f : Option Nat) (sv : PyVal) (p : AProto)
-    (h : construct q .int64 name (.atom (.int n f)) = .ok (sv, p)) :
-    p.i = n ∧ sv = .atom (.int n f) := by
+theorem attr_int_exact (q : Bool) (name : String) (n : Int) (sv : PyVal) (p : AProto)
+    (h : construct q .int64 name (.atom (.int n)) = .ok (sv, p)) :
+    p.i = n ∧ sv = .atom (.int n) := by
   simp only [construct, scalarProto, validated] at h
   split at h
   · simp at h
@@ -378,6 +380,77 @@ theorem attr_int_exact (q : Bool) (name : String) (n : Int) (f : Option Nat) (sv
       · simp at h
       · simp only [Except.ok.injEq, Prod.mk.injEq] at h; obtain ⟨rfl, rfl⟩ := h; exact ⟨rfl, rfl⟩
     · simp at hp'
+
+
+/-! ### The float32 attribute path: the value is rounded once, to nearest, ties to even -/
+
+/-- **A float attribute holds `(float)value`.** `r32` is built on `rne` (see `r32_finite`), for which
+    `rne_nearest` (no representable neighbour is closer) and `rne_tie_even` are proved over all naturals. -/
+theorem attr_float_exact (q : Bool) (name : String) (b : Nat) (sv : PyVal) (p : AProto)
+    (h : construct q .float32 name (.atom (.float b)) = .ok (sv, p)) :
+    p.f = r32 b ∧ p.type = FLOAT ∧ p.name = name := by
+  simp only [construct, scalarProto, validated] at h
+  split at h
+  · simp at h
+  · simp only [Except.ok.injEq, Prod.mk.injEq] at h
+    obtain ⟨_, rfl⟩ := h
+    exact ⟨rfl, rfl, rfl⟩
+
+/-- A Python int given to a float attribute goes through `float(n)` (correctly rounded) and then `r32`. -/
+theorem attr_float_of_int_exact (q : Bool) (name : String) (n : Int) (sv : PyVal) (p : AProto)
+    (h : construct q .float32 name (.atom (.int n)) = .ok (sv, p)) :
+    ∃ d, i2d n = some d ∧ p.f = r32 d := by
+  simp only [construct, validated, intF32] at h
+  cases hd : i2d n with
+  | none => simp [hd, validateCatchAll] at h
+  | some d =>
+    simp only [hd, Option.map_some] at h
+    split at h
+    · simp at h
+    · simp only [Except.ok.injEq, Prod.mk.injEq] at h
+      obtain ⟨_, rfl⟩ := h
+      exact ⟨d, rfl, rfl⟩
+
+/-- What `r32` does to a finite double with sign `s`, biased exponent `e`, fraction `m`: in the normal
+    range of binary32 the 53-bit significand `2^52 + m` is rounded (`rne`) to 24 bits — a carry moves
+    into the exponent by plain addition and everything from 2^128 on becomes infinity; below 2^-126 the
+    value is rounded to a multiple of 2^-149 (gradual underflow). -/
+theorem r32_finite (b : Nat) (he : b / 2 ^ 52 % 2048 ≠ 2047) :
+    r32 b = (b / 2 ^ 63 % 2) * 2 ^ 31 +
+      (if 897 ≤ b / 2 ^ 52 % 2048 then
+         min ((b / 2 ^ 52 % 2048 - 897) * 2 ^ 23 + rne (2 ^ 52 + b % 2 ^ 52) 29) f32Inf
+       else
+         rne (if b / 2 ^ 52 % 2048 = 0 then b % 2 ^ 52 else 2 ^ 52 + b % 2 ^ 52)
+             (if b / 2 ^ 52 % 2048 = 0 then 925 else 926 - b / 2 ^ 52 % 2048)) := by
+  unfold r32
+  simp only [he, if_false]
+  split <;> rfl
+
+/-- The rounding primitive is *nearest* and *ties-to-even* (re-exported from `Lemmas/Float.lean`). -/
+theorem float_rounding_nearest (M k z : Nat) :
+    absDiff M (rne M k * 2 ^ k) ≤ absDiff M (z * 2 ^ k) := rne_nearest M k z
+theorem float_rounding_ties_even (M k : Nat) (h : 2 * (M % 2 ^ k) = 2 ^ k) : rne M k % 2 = 0 :=
+  rne_tie_even M k h
+
+section float_examples
+-- 0.1 → 0x3dcccccd;  2^24+1 is half way: goes to the even 2^24;  2^24+3 goes up to 2^24+4
+example : r32 0x3FB999999999999A = 0x3DCCCCCD := by decide
+example : r32 0x4170000010000000 = 0x4B800000 := by decide
+example : r32 0x4170000030000000 = 0x4B800002 := by decide
+-- 1e40 overflows to +inf, the largest double that still rounds to FLT_MAX does not
+example : r32 0x483D6329F1C35CA5 = 0x7F800000 := by decide
+example : r32 0x47EFFFFFEFFFFFFF = 0x7F7FFFFF := by decide
+example : r32 0x47EFFFFFF0000000 = 0x7F800000 := by decide
+-- 2^-150 is half way between 0 and the smallest subnormal: even (0) wins; the next double goes up
+example : r32 0x3690000000000000 = 0 := by decide
+example : r32 0x3690000000000001 = 1 := by decide
+-- −0.0, a NaN with payload (quietened, top payload bits kept), Python int 2^53+1 → float → float32
+example : r32 0x8000000000000000 = 0x80000000 := by decide +kernel
+example : r32 0x7FF4000012345678 = 0x7FE00000 := by decide
+example : (i2d (2 ^ 53 + 1)).map r32 = some 0x5A000000 := by decide +kernel
+set_option exponentiation.threshold 2000 in
+example : i2d (2 ^ 1024) = none := by decide +kernel
+end float_examples
 
 /-- A list attribute keeps its items *in order*, all of them, frozen: the stored value is the tuple
     of the items, and the proto holds exactly their conversions. -/
@@ -434,6 +507,157 @@ theorem attr_tensor_exact (q : Bool) (name : String) (a : Arr) (ha : a.WF) (sv :
   · simp only [Except.ok.injEq, Prod.mk.injEq] at h
     obtain ⟨_, rfl⟩ := h
     exact ⟨t, rfl, hback, const_type_exact q a "" t ht⟩
+
+
+/-! ## Part 4 — the embedding path: `const`, `constant`, `initializer`, argument defaults -/
+open Embed
+
+/-- `AttrTensor(arr)` on any array succeeds and embeds exactly `from_array arr`: the tensor decodes
+    back to the array, and carries the array's element type and shape. -/
+theorem embedArr_spec (q : Bool) (r : Route) (prop : Bool) (a : Arr) (ha : a.WF) :
+    ∃ t, embedArr q r prop a = .ok ⟨r, t, (a.dtype, a.shape), if prop then some a else none⟩ ∧
+      fromArray q a "" = some t ∧ toArray q t = some (canon q a) ∧
+      typeOfProto t = some (a.dtype, a.shape) := by
+  obtain ⟨t, ht, hback⟩ := roundtrip q a "" ha
+  refine ⟨t, ?_, ht, hback, const_type_exact q a "" t ht⟩
+  simp [embedArr, construct, scalarProto, ht, validated, kindOf, TENSOR]
+
+/-- **const_spec.** Whatever the user hands to `const` — a bare Python scalar, a numpy scalar, an
+    array, a flat or nested list — if numpy makes the array `a` of it, the call yields a `Constant`
+    node whose `value` tensor decodes to `a` (bit-exact up to `canon`), the Var has type
+    `Tensor(a.dtype, a.shape)` and the propagated value is `a`. -/
+theorem const_spec (q : Bool) (v : Value) (a : Arr) (h : numpyArray v = some (.ok a)) (ha : a.WF) :
+    ∃ e, Embed.const q v = some (.ok e) ∧ e.route = .constantNode ∧ e.varType = (a.dtype, a.shape) ∧
+      e.propagated = some a ∧ toArray q e.tensor = some (canon q a) ∧
+      typeOfProto e.tensor = some e.varType := by
+  obtain ⟨t, he, _, hback, hty⟩ := embedArr_spec q .constantNode true a ha
+  refine ⟨⟨.constantNode, t, (a.dtype, a.shape), some a⟩, ?_, rfl, rfl, rfl, hback, hty⟩
+  simp only [Embed.const, h, Option.map_some]
+  exact congrArg some he
+
+/-- The same for `spox._future.initializer(value)`, which *is* `spox._graph.initializer(np.array(value))`:
+    the tensor becomes a graph initializer instead of a node attribute, nothing else differs. -/
+theorem future_is_graph_initializer (q : Bool) (v : Value) :
+    futureInitializer q v = (numpyArray v).map (· >>= graphInitializer q) := rfl
+
+theorem initializer_spec (q : Bool) (v : Value) (a : Arr) (h : numpyArray v = some (.ok a)) (ha : a.WF) :
+    ∃ e, futureInitializer q v = some (.ok e) ∧ graphInitializer q a = .ok e ∧
+      e.route = .initializer ∧ e.varType = (a.dtype, a.shape) ∧ e.propagated = some a ∧
+      toArray q e.tensor = some (canon q a) ∧ typeOfProto e.tensor = some e.varType := by
+  obtain ⟨t, he, _, hback, hty⟩ := embedArr_spec q .initializer true a ha
+  refine ⟨⟨.initializer, t, (a.dtype, a.shape), some a⟩, ?_, he, rfl, rfl, rfl, hback, hty⟩
+  simp only [futureInitializer, h, Option.map_some]
+  exact congrArg some he
+
+/-- An argument default embeds the same tensor as an initializer (and, being overridable, propagates
+    no value). -/
+theorem argDefault_spec (q : Bool) (a : Arr) (ha : a.WF) :
+    ∃ e, argDefault q a = .ok e ∧ e.route = .initializer ∧ e.varType = (a.dtype, a.shape) ∧
+      e.propagated = none ∧ toArray q e.tensor = some (canon q a) ∧
+      (∃ e', graphInitializer q a = .ok e' ∧ e'.tensor = e.tensor) := by
+  obtain ⟨t, he, _, hback, _⟩ := embedArr_spec q .initializer false a ha
+  obtain ⟨t', he', ht', _, _⟩ := embedArr_spec q .initializer true a ha
+  have : t' = t := by
+    obtain ⟨t2, _, ht2, _, _⟩ := embedArr_spec q .initializer false a ha
+    simp_all
+  exact ⟨_, he, rfl, rfl, rfl, hback, _, he', by simp [this]⟩
+
+/-- What numpy refuses, the call refuses with the same class (object dtype → TypeError, ragged
+    nesting → ValueError). -/
+theorem const_error (q : Bool) (v : Value) (e : Err) (h : numpyArray v = some (.error e)) :
+    Embed.const q v = some (.error e) ∧ futureInitializer q v = some (.error e) := by
+  simp [Embed.const, futureInitializer, h, bind, Except.bind]
+
+/-! The element type a bare Python value gets. -/
+theorem const_of_bool (b : Bool) :
+    numpyArray (.scalar (.bool b)) = some (.ok ⟨.bool, [], [if b then 1 else 0], []⟩) := by
+  cases b <;> rfl
+
+theorem const_of_float (b : Nat) :
+    numpyArray (.scalar (.float b)) = some (.ok ⟨.float64, [], [b], []⟩) := rfl
+
+theorem const_of_str (cs : List Char) :
+    numpyArray (.scalar (.str cs)) = some (.ok ⟨.str, [], [], [stripNul cs]⟩) := rfl
+
+theorem const_of_npscalar (d : DType) (ws : List Nat) (cs : List Char) :
+    ∃ a, numpyArray (.npScalar d ws cs) = some (.ok a) ∧ a.dtype = d ∧ a.shape = [] ∧ a.words = ws :=
+  ⟨_, rfl, rfl, rfl, rfl⟩
+
+theorem const_of_array (a : Arr) : numpyArray (.array a) = some (.ok a) := rfl
+
+/-- A bare Python int becomes int64 when it fits, … -/
+theorem const_of_int64 (n : Int) (h1 : -(2 ^ 63 : Int) ≤ n) (h2 : n < (2 ^ 63 : Int)) :
+    numpyArray (.scalar (.int n)) = some (.ok ⟨.int64, [], [ofInt 64 n], []⟩) ∧
+      toSigned 64 (ofInt 64 n) = n := by
+  constructor
+  · have c1 : ¬ (n < -9223372036854775808 ∨ 18446744073709551616 ≤ n) := by omega
+    have c2 : ¬ (n < 9223372036854775808 ∧ 9223372036854775808 ≤ n) := by omega
+    have c3 : ¬ (9223372036854775808 ≤ n) := by omega
+    simp [numpyArray, arrayOfScalars, inferDType, Scalar.kind, Scalar.asInt, payload, c1, c2, c3]
+  · unfold toSigned ofInt; split <;> omega
+
+/-- … uint64 from 2^63 up to 2^64 − 1 (the value itself is the payload), … -/
+theorem const_of_uint64 (n : Int) (h1 : (2 ^ 63 : Int) ≤ n) (h2 : n < (2 ^ 64 : Int)) :
+    numpyArray (.scalar (.int n)) = some (.ok ⟨.uint64, [], [n.toNat], []⟩) := by
+  have c1 : ¬ (n < -9223372036854775808 ∨ 18446744073709551616 ≤ n) := by omega
+  have c2 : ¬ (n < 9223372036854775808 ∧ 9223372036854775808 ≤ n) := by omega
+  have c3 : (9223372036854775808 : Int) ≤ n := by omega
+  have c4 : ¬ (n < 9223372036854775808) := by omega
+  have e : ofInt 64 n = n.toNat := by unfold ofInt; omega
+  simp [numpyArray, arrayOfScalars, inferDType, Scalar.kind, Scalar.asInt, payload, c1, c2, c3, c4, e]
+
+/-- … and is refused (numpy makes an `object` array, `AttrTensor` raises TypeError) beyond. -/
+theorem const_of_bigint (n : Int) (h : n < -(2 ^ 63 : Int) ∨ (2 ^ 64 : Int) ≤ n) :
+    numpyArray (.scalar (.int n)) = some (.error .typeError) := by
+  have c1 : (n < -9223372036854775808 ∨ 18446744073709551616 ≤ n) := by omega
+  simp [numpyArray, arrayOfScalars, inferDType, Scalar.kind, Scalar.asInt, c1]
+
+/-- Lists: a float anywhere makes float64; ints below and from 2^63 together make float64 too. -/
+example : (numpyArray (.list [.int 1, .float 0x4004000000000000])).map (·.toOption.map (·.dtype)) = some (some .float64) := by decide
+example : (numpyArray (.list [.int 0, .int (2 ^ 63)])).map (·.toOption.map (·.dtype)) = some (some .float64) := by decide +kernel
+example : (numpyArray (.list [.bool true, .int (2 ^ 63)])).map (·.toOption.map (·.dtype)) = some (some .uint64) := by decide
+example : (numpyArray (.list [])).map (·.toOption.map (fun a => (a.dtype, a.shape))) = some (some (.float64, [0])) := by decide
+example : numpyArray (.nested [[.int 1], [.int 2, .int 3]]) = some (.error .valueError) := by rfl
+example : numpyArray (.list [.int 1, .str ['a']]) = none := by rfl
+
+/-- **constant_spec.** `constant(<key>=v)` wraps `v` in the attribute class of the key: when it
+    returns, the attribute has the key's name and the ONNX type of that class … -/
+theorem constant_spec (q : Bool) (k : ConstKey) (v : PyVal) (p : AProto) (pr : Option Arr)
+    (h : constant q k v = .ok (p, pr)) : p.name = k.name ∧ p.type = specKind k.cls := by
+  unfold constant at h
+  cases hc : construct q k.cls k.name v with
+  | error e => simp [hc] at h
+  | ok r =>
+    obtain ⟨sv, p'⟩ := r
+    simp only [hc, Except.ok.injEq, Prod.mk.injEq] at h
+    obtain ⟨rfl, _⟩ := h
+    exact attr_kind_exact q k.cls k.name v sv p' hc
+
+/-- … and the propagated value (hence the Var's type) is: `value_int` → int64 scalar of that int,
+    `value_float` → float32 scalar of the rounded value, `value_ints` / `value_floats` → 1-d of the
+    items in order. -/
+theorem constant_propagated (q : Bool) (k : ConstKey) (v : PyVal) (p : AProto) (pr : Option Arr)
+    (h : constant q k v = .ok (p, pr)) :
+    (k = .value_int → pr = some ⟨.int64, [], [ofInt 64 p.i], []⟩) ∧
+    (k = .value_float → pr = some ⟨.float32, [], [p.f], []⟩) ∧
+    (k = .value_ints → pr = some ⟨.int64, [p.ints.length], p.ints.map (ofInt 64), []⟩) ∧
+    (k = .value_floats → pr = some ⟨.float32, [p.floats.length], p.floats, []⟩) := by
+  unfold constant at h
+  cases hc : construct q k.cls k.name v with
+  | error e => simp [hc] at h
+  | ok r =>
+    obtain ⟨sv, p'⟩ := r
+    simp only [hc, Except.ok.injEq, Prod.mk.injEq] at h
+    obtain ⟨rfl, rfl⟩ := h
+    refine ⟨?_, ?_, ?_, ?_⟩ <;> (intro hk; subst hk; cases sv <;> rfl)
+
+/-- `constant(value=v)` is the same embedding as `const(v)` on an array. -/
+theorem constant_value_spec (q : Bool) (a : Arr) (ha : a.WF) :
+    ∃ p t, constant q .value (.atom (.ndarray a)) = .ok (p, some a) ∧ p.t = some t ∧
+      toArray q t = some (canon q a) ∧ typeOfProto t = some (a.dtype, a.shape) := by
+  obtain ⟨t, ht, hback⟩ := roundtrip q a "" ha
+  refine ⟨{ name := "value", type := TENSOR, t := some t }, t, ?_, rfl, hback, const_type_exact q a "" t ht⟩
+  simp [constant, ConstKey.cls, ConstKey.name, construct, scalarProto, ht, validated, kindOf, TENSOR, propagate]
 
 /-! ## Part 3 — captured at the call -/
 open Capture
